@@ -10,6 +10,12 @@
   #pragma warning( disable : 26446 ) // Do not warn about operator[] access
 #endif
 
+#ifdef CONCEPTCORE_VERIF
+#include "ccl/verifHooks.hpp"
+// Within this translation unit the iteration limit becomes a run-time knob (default: shipped value)
+#define MAX_ITERATIONS (ccl::verif::GetHooks().maxIterations != 0 ? ccl::verif::GetHooks().maxIterations : 100000)
+#endif
+
 using ccl::object::StructuredData;
 using ccl::object::Factory;
 
@@ -715,4 +721,8 @@ std::optional<ExpressionValue> ASTInterpreter::EvaluateChild(Cursor iter, const 
 
 #ifdef _MSC_VER
   #pragma warning( pop )
+#endif
+
+#ifdef CONCEPTCORE_VERIF
+  #undef MAX_ITERATIONS
 #endif
